@@ -1163,3 +1163,67 @@ func init() {
 		return nil
 	})
 }
+
+// ---------------------------------------------------------------- ideal AEAD (chacha20poly1305)
+//
+// Seal(key, nonce, plaintext, ad) returns an opaque concrete ciphertext of len(plaintext)+16 bytes
+// and remembers it; Open succeeds iff the ciphertext is exactly one that Seal produced under the same
+// key, nonce and additional data, and returns that plaintext. Natively the real cipher runs.
+
+type aeadRecord struct {
+	key, nonce, ad string
+	pt         []Value
+	ct         []byte
+}
+
+func init() {
+	const tp = "(*golang.org/x/crypto/chacha20poly1305.chacha20poly1305)."
+	keyOf := func(v Value) string {
+		st := (*v.(*Value)).(Struct)
+		b, ok := concBytes(st[0])
+		if !ok {
+			panic(pathEnd{kind: "unsupported", msg: "AEAD with a symbolic key"})
+		}
+		return string(b)
+	}
+	conc := func(v Value, what string) string {
+		b, ok := concBytes(v)
+		if !ok {
+			panic(pathEnd{kind: "unsupported", msg: "AEAD with symbolic " + what})
+		}
+		return string(b)
+	}
+	reg(tp+"Seal", func(m *Machine, fr *frame, a []Value) Value {
+		key, nonce, ad := keyOf(a[0]), conc(a[2], "nonce"), conc(a[4], "additional data")
+		if len(nonce) != 12 {
+			panic(targetPanic{rt: "chacha20poly1305: bad nonce length passed to Seal"})
+		}
+		pt := a[3].(Slice)
+		recs, _ := m.side["aead"].([]*aeadRecord)
+		ct := make([]byte, len(pt)+16)
+		copy(ct, fmt.Sprintf("AEAD#%d#", len(recs)))
+		for i := 8; i < len(ct); i++ {
+			ct[i] = byte(0xC0 + (len(recs)*7+i)%61)
+		}
+		rec := &aeadRecord{key: key, nonce: nonce, ad: ad, pt: append([]Value{}, pt...), ct: ct}
+		m.side["aead"] = append(recs, rec)
+		dst, _ := a[1].(Slice)
+		return Slice(append(dst, []Value(bytesOf(ct))...))
+	})
+	reg(tp+"Open", func(m *Machine, fr *frame, a []Value) Value {
+		key, nonce, ad := keyOf(a[0]), conc(a[2], "nonce"), conc(a[4], "additional data")
+		ct, _ := a[3].(Slice)
+		recs, _ := m.side["aead"].([]*aeadRecord)
+		for _, r := range recs {
+			if r.key == key && r.nonce == nonce && r.ad == ad && len(r.ct) == len(ct) {
+				if m.concBool(fr, m.eqBytes(ct, Slice(bytesOf(r.ct))), "AEAD.Open ciphertext is the sealed one") {
+					dst, _ := a[1].(Slice)
+					return Tuple{Slice(append(dst, r.pt...)), Iface{}}
+				}
+			}
+		}
+		return Tuple{Slice(nil), m.mkError("chacha20poly1305: message authentication failed")}
+	})
+	reg(tp+"NonceSize", func(m *Machine, fr *frame, a []Value) Value { return int64(12) })
+	reg(tp+"Overhead", func(m *Machine, fr *frame, a []Value) Value { return int64(16) })
+}
